@@ -7,6 +7,7 @@ import (
 
 	cose "github.com/veraison/go-cose"
 	psatoken "github.com/veraison/psatoken"
+	"github.com/veraison/psatoken/zzverif/simrt"
 )
 
 // W-EVID: one Evidence object driven through a history of attach / sign /
@@ -18,6 +19,7 @@ type TokenDesc struct {
 	Claims int      `json:"claims"`
 	Signer int      `json:"signer"`
 	A      int      `json:"a,omitempty"`
+	B      int      `json:"b,omitempty"`
 	X      HexBytes `json:"x,omitempty"`
 }
 
@@ -46,7 +48,7 @@ func genSignerSpec(r *Rng, cheap bool) SignerSpec {
 // dispatch looks at key 265 only, so such a profile is by design not reachable
 // through Evidence.UnmarshalCOSE and the binding clause would compare apples
 // with pears.
-var profFamilies = []string{"p1", "p2", "p1", "p2", "xp2", "xw"}
+var profFamilies = []string{"p1", "p2", "p1", "p2", "xp2", "xw", "xu"}
 
 func (evidWorld) Gen(prop, tier string, idx int, r *Rng) *Trace {
 	var cfg EvidCfg
@@ -65,7 +67,7 @@ func (evidWorld) Gen(prop, tier string, idx int, r *Rng) *Trace {
 		cfg.Signers = append(cfg.Signers, genSignerSpec(r, true))
 	}
 	nTok := r.Range(3, 6)
-	tokKinds := []string{"valid", "valid", "flip-payload", "flip-sig", "flip-prot", "trunc", "garbage", "rawpayload", "valid"}
+	tokKinds := []string{"valid", "valid", "flip-payload", "flip-sig", "flip-prot", "trunc", "garbage", "rawpayload", "valid", "tree", "tree"}
 	for i := 0; i < nTok; i++ {
 		td := TokenDesc{Kind: tokKinds[r.Intn(len(tokKinds))], Claims: r.Intn(nClaims), Signer: r.Intn(nSig), A: r.Intn(1 << 16)}
 		switch td.Kind {
@@ -431,7 +433,14 @@ func (evidWorld) Exec(prop string, t *Trace) *Result {
 						res.Evals++
 						ev2, derr := psatoken.DecodeEvidenceFromCOSE(append([]byte{}, tok...))
 						if derr != nil {
-							if v == nil {
+							registered := true
+							if pn, perr := e.Claims.GetProfile(); perr == nil {
+								if _, nerr := psatoken.NewClaims(pn); nerr != nil {
+									registered = false // a party that only encodes: its profile was never registered here
+									res.Probes["signed_claims_of_unregistered_profile"]++
+								}
+							}
+							if v == nil && registered {
 								res.violate("C19", "fresh-decode-fails", "", i, "token from successful %s of valid claims does not decode: %v", op.K, derr)
 							}
 						} else if verr := ev2.Verify(pubKey(spec.Key)); verr != nil {
@@ -587,6 +596,8 @@ func (evidWorld) Exec(prop string, t *Trace) *Result {
 							} else if enc, eerr := psatoken.EncodeClaimsToCBOR(e.Claims); eerr != nil || !bytes.Equal(enc, model.parts.Payload) {
 								res.violate("C19", "binding-payload-undecodable", "", i, "Verify succeeded, claims are attached, but the covered payload neither decodes (%v) nor is the encoding of the attached claims", derr)
 							}
+						} else if n, ok := wireComponentCount(model.parts.Payload); ok && !componentCountAgrees(e.Claims, n) {
+							res.violate("C19", "binding-mismatch", "", i, "Verify succeeded but the covered payload lists %d software-component entries (harness CBOR walker) while the attached claims expose a different number", n)
 						} else if a, b := getterObs(dec), getterObs(e.Claims); a != b {
 							res.violate("C19", "binding-mismatch", "", i, "Verify succeeded but attached claims differ from the covered payload:\n payload: %s\n attached: %s", a, b)
 						} else if model.payloadObs != "undecodable" && model.payloadObs != b {
@@ -796,6 +807,10 @@ func pairGate(res *Result, i int, name string, b []byte, d, dv func([]byte) (psa
 
 // allPairGates runs the three decoder pairs on one delivered byte string.
 func allPairGates(res *Result, i int, b []byte) (gateInvalid, gateValid int) {
+	// every library map range executed by the decoders below uses a different
+	// iteration order from the previous one (seam T1)
+	simrt.OrderFn = obsOrderFn
+	defer func() { simrt.OrderFn = nil }()
 	coseD := func(x []byte) (psatoken.IClaims, error) {
 		e, err := psatoken.DecodeEvidenceFromCOSE(x)
 		if err != nil || e == nil {
@@ -944,6 +959,10 @@ func makeEvidToken(cfg *EvidCfg, live []psatoken.IClaims, td TokenDesc, led ledg
 		}
 		payload = b
 	}
+	if td.Kind == "tree" {
+		// a correctly signed token whose claims tree is damaged at one node (null / wrong type / duplicate ...)
+		payload, _ = applyTreeFault(payload, td.A, td.B)
+	}
 	tok, err := directSign(spec, payload)
 	if err != nil {
 		return nil
@@ -1078,4 +1097,53 @@ func decodeLike(like psatoken.IClaims, payload []byte) (out psatoken.IClaims) {
 		return nil
 	}
 	return fresh
+}
+
+// wireComponentCount reads, with the harness's own CBOR walker, how many
+// entries the software-components array of a claims map carries on the wire
+// (key -75006 in profile 1, 2399 in profile 2, as the PSA token specifications
+// define them). ok=false when the payload is not a definite map with such an array.
+func wireComponentCount(payload []byte) (int, bool) {
+	h, err := readHead(payload, 0)
+	if err != nil || h.Major != 5 || h.Info == 31 {
+		return 0, false
+	}
+	p := h.HLen
+	for i := uint64(0); i < h.Arg; i++ {
+		kh, err := readHead(payload, p)
+		if err != nil {
+			return 0, false
+		}
+		kEnd, err := walkItem(payload, p, 0, nil)
+		if err != nil {
+			return 0, false
+		}
+		vEnd, err := walkItem(payload, kEnd, 0, nil)
+		if err != nil {
+			return 0, false
+		}
+		if (kh.Major == 1 && kh.Arg == 75005) || (kh.Major == 0 && kh.Arg == 2399) {
+			vh, err := readHead(payload, kEnd)
+			if err != nil || vh.Major != 4 || vh.Info == 31 {
+				return 0, false
+			}
+			return int(vh.Arg), true
+		}
+		p = vEnd
+	}
+	return 0, false
+}
+
+// componentCountAgrees: when the getter succeeds it must expose as many
+// components as the wire carries (a getter that fails makes no statement).
+func componentCountAgrees(c psatoken.IClaims, wire int) bool {
+	ok := true
+	func() {
+		defer func() { _ = recover() }()
+		scs, err := c.GetSoftwareComponents()
+		if err == nil && len(scs) != wire && !(wire == 0 && len(scs) == 0) {
+			ok = false
+		}
+	}()
+	return ok
 }
